@@ -115,6 +115,31 @@ def line_height(case):
     return [r[0], _num(r[1])]
 
 
+def computer(case):
+    """gap / word_spacing / border_width / border_radius on a stub style.  case: fn, name, own_fs, root_fs,
+    is_root, value ('normal' | 'thin'.. | int | [num, unit]; for border_radius a list of [num, unit]),
+    border_style (border_width: the entry name.replace('width', 'style') of the style)"""
+    from weasyprint.css import computed_values
+    from weasyprint.css.properties import Dimension
+    style = _Stub(case)
+    if case.get('border_style') is not None:
+        style[case['name'].replace('width', 'style')] = case['border_style']
+
+    def val(v):
+        return Dimension(Fraction(v[0]), v[1]) if isinstance(v, list) else v
+
+    def out(r):
+        if isinstance(r, str):
+            return r
+        if hasattr(r, 'unit'):
+            return [_num(r.value), r.unit]
+        return _num(r)
+    fn = getattr(computed_values, case['fn'])
+    if case['fn'] == 'border_radius':
+        return [out(r) for r in fn(style, case['name'], tuple(val(v) for v in case['value']))]
+    return out(fn(style, case['name'], val(case['value'])))
+
+
 def direct(case):
     """dispatcher: (function name, case)"""
     return globals()[case[0]](case[1])
